@@ -67,6 +67,21 @@ theorem construction_form_independent (tol : ℚ) (pts : List (ℚ × ℚ)) (h :
     GenQ.Interpolation.set tol [.interp o] = .ok o :=
   ⟨set_varargs tol pts h, set_varargs_odd tol pts h z, rfl⟩
 
+/-- The one-list form `Interpolation([y0, y1, …])` is the two-list form with the abscissae `0, 1, 2, …`. -/
+theorem single_list_form (tol : ℚ) (ys : List ℚ) :
+    GenQ.Interpolation.set tol [.list ys]
+      = GenQ.Interpolation.set tol [.list ((List.range ys.length).map (fun (i : ℕ) => ((i : ℤ) : ℚ))), .list ys] := by
+  rw [set_two_lists]
+  simp only [GenQ.Interpolation.set, set1, List.length_map, List.length_range, Nat.min_self, List.take_length, ofInt]
+  rw [List.take_of_length_le (by simp)]
+
+/-- Lists of unequal length: the longer one is cut to the length of the shorter one. -/
+theorem unequal_lengths_truncated (tol : ℚ) (xs ys : List ℚ) :
+    GenQ.Interpolation.set tol [.list xs, .list ys]
+      = GenQ.Interpolation.set tol [.list (xs.take (min xs.length ys.length)), .list (ys.take (min xs.length ys.length))] := by
+  rw [set_two_lists, set_two_lists]
+  simp [List.take_take]
+
 /-! ### The interpolant passes through every point and reproduces polynomials -/
 
 /-- "The interpolating polynomial through n tabulated points passes through every point": for the Newton form
@@ -280,6 +295,27 @@ theorem root_post_default (xs ys : List ℚ) (o : Interp) (v : ℚ) (m : Int)
   rw [htol] at hyt
   exact ⟨⟨hA ▸ r1, hB ▸ r2⟩, y, hy, hyt⟩
 
+/-- Which exception `root` raises when: limits closer than the tolerance are refused with ValueError. -/
+theorem root_refuses_equal_limits (xs ys : List ℚ) (o : Interp) (xl xh : ℚ) (m : Int)
+    (hset : GenQ.Interpolation.set TOL [.list xs, .list ys] = .ok o)
+    (hnd : ¬ (xl = 0 ∧ xh = 0)) (hc : |xl - xh| < TOL) :
+    root o xl xh m = .error .valueError := by
+  obtain ⟨wf, htol, _, _⟩ := set_two_lists_ok TOL_pos TOL_le_one hset
+  have hx : o.x ≠ [] := by intro e; have := wf.two; rw [e] at this; simp at this
+  unfold root
+  rw [root_limits_equal hx hnd (by rw [htol]; exact hc)]
+  rfl
+
+/-- What `root` does at its (clamped) limits `A ≤ B`, before iterating: a limit at which the interpolant is within
+    the tolerance is returned (the lower one first); if the interpolant has the same sign at both limits the
+    interval is refused with ValueError ("Probably no root exists"). -/
+theorem root_at_limits (o : Interp) (xl xh A B yl yh : ℚ) (m : Int)
+    (hlim : root_limits o xl xh = .ok (A, B)) (hyl : call o A = .ok yl) (hyh : call o B = .ok yh) :
+    (|yl| < o.tol → root o xl xh m = .ok A) ∧
+    (¬ |yl| < o.tol → |yh| < o.tol → root o xl xh m = .ok B) ∧
+    (¬ |yl| < o.tol → ¬ |yh| < o.tol → 0 < yl * yh → root o xl xh m = .error .valueError) :=
+  root_entry m hlim hyl hyh
+
 /-- Termination of the iteration: the loop of `root` (any object, any start state with `num_iter = 0`) ends within
     `max_iter + 1` passes — by its exit test `abs(y) <= tol` or by ValueError('Too many iterations'); the model's
     fuel is never exhausted. -/
@@ -395,6 +431,10 @@ example : (GenQ.Interpolation.set TOL [.list [0, 1, 2], .list [-1, 1, 3]] >>= fu
 example : (GenQ.Interpolation.set TOL [.list [0, 1, 2], .list [3, 0, 1]] >>= fun o => minmax o (1 / 2) 2 5)
     = .ok (5 / 4) := by decide +kernel
 example : planetary_conjunction [10, 11, 12] [5, 6, 7] [12, 11, 10] [1, 1, 1] = .ok (0, 5) := by decide +kernel
+example : (GenQ.Interpolation.set TOL [.list [0, 1, 2], .list [3, 1, 2]] >>= fun o => root o 0 2 5)
+    = .error .valueError := by decide +kernel   -- no sign change
+example : (GenQ.Interpolation.set TOL [.list [0, 1, 2], .list [3, 0, 1]] >>= fun o => root o (1 / 2) 1 5)
+    = .ok 1 := by decide +kernel                 -- the upper limit is a root
 example : (GenQ.Interpolation.set TOL [.list [0, 1, 2], .list [3, 0, 1]] >>= fun o => call o 3)
     = .error .valueError := by decide +kernel
 
